@@ -345,7 +345,15 @@ class C20(framework.PropertyCheck):
             if len(prog['stmts']) >= 2 and g.r.random() < 0.3:
                 # statements guarded by the same conditions still run in source order, each in its own turn
                 prog['stmts'][-1]['conds'] = list(prog['stmts'][0]['conds'])
-                if g.r.random() < 0.6:
+                r5 = g.r.random()
+                if r5 < 0.3:
+                    # the shared condition reads a variable that the first action changes: the second statement tests it afresh
+                    c = ('par', ('bin', '<', ('v', 'x'), ('n', g.r.randint(3, 6))))
+                    prog['stmts'][0]['conds'] = [('sig', 'top.clk'), c] if g.r.random() < 0.5 else [c]
+                    prog['stmts'][-1]['conds'] = list(prog['stmts'][0]['conds'])
+                    prog['stmts'][0]['action'].insert(0, ('opassign', 'x', '+', ('n', 2)))
+                    prog['stmts'][-1]['action'].insert(0, ('print', 'second ', ('v', 'x')))
+                elif r5 < 0.7:
                     c = ('sig', g.r.choice(['top.clk', 'top.d_valid']))
                     prog['stmts'][0]['conds'] = [c]
                     prog['stmts'][-1]['conds'] = [c]
